@@ -59,10 +59,14 @@ def main():
     results = json.load(open(respath)) if os.path.exists(respath) else {}
     for sid in ids:
         res = run_one(sid, in_repo)
-        results[sid] = res
         print(sid, {k: ("DETECTED" if v["detected"] else "missed(exit %s)" % v["exit"]) for k, v in res.items()})
-        with open(respath, "w") as f:
-            json.dump(results, f, indent=1, sort_keys=True)
+        import fcntl
+        with open(respath + ".lock", "w") as lk:  # several runners may work in parallel
+            fcntl.flock(lk, fcntl.LOCK_EX)
+            results = json.load(open(respath)) if os.path.exists(respath) else {}
+            results[sid] = res
+            with open(respath, "w") as f:
+                json.dump(results, f, indent=1, sort_keys=True)
     shutil.rmtree(os.path.join(VERIF, "replays"), ignore_errors=True)
 
 
